@@ -314,3 +314,22 @@ def thm_rt_search_request_fixed(e_base: bytes, base_b: bytes, e_scope: bytes, c_
     lemma_tlv_roundtrip(e_size, 0, False, 2, c_size, cat(e_time, e_types, tail))
     lemma_tlv_roundtrip(e_time, 0, False, 2, c_time, cat(e_types, tail))
     lemma_tlv_roundtrip(e_types, 0, False, 1, seq1(255 if types_only else 0), tail)
+
+
+def thm_rt_control(e: bytes, e_type: bytes, type_b: bytes, e_crit: bytes, critical: bool, e_val: bytes, val: bytes, has_val: bool, tail: bytes) -> None:
+    """Control: what LDAPControl.pack appends, read back by the decoder's postcondition (criticality DEFAULT FALSE omitted, TRUE = FF)."""
+    lemma_tlv_roundtrip(e, 0, True, 16, cat(e_type, ite(critical, e_crit, empty()), ite(has_val, e_val, empty())), tail)
+    lemma_tlv_roundtrip(e_type, 0, False, 4, type_b, cat(ite(critical, e_crit, empty()), ite(has_val, e_val, empty())))
+    if critical:
+        lemma_tlv_roundtrip(e_crit, 0, False, 1, seq1(255), ite(has_val, e_val, empty()))
+        lemma_tlv_prefix(e_crit, ite(has_val, e_val, empty()))
+        if has_val:
+            lemma_tlv_roundtrip(e_val, 0, False, 4, val, empty())
+            lemma_tlv_prefix(e_val, empty())
+            assert cat(e_val, empty()) == e_val
+    else:
+        assert cat(empty(), ite(has_val, e_val, empty())) == ite(has_val, e_val, empty())
+        if has_val:
+            lemma_tlv_roundtrip(e_val, 0, False, 4, val, empty())
+            lemma_tlv_prefix(e_val, empty())
+            assert cat(e_val, empty()) == e_val
